@@ -410,12 +410,14 @@ func (s *Store) instantiate(
 	// After engine creation, we can create the funcref element instances and initialize funcref type globals.
 	m.buildElementInstances(module.ElementSection)
 
+	// Per the specification, active element segments are applied before active data segments, so
+	// that their effect on (possibly imported) tables persists even if a data segment is out of bounds.
+	m.applyElements(module.ElementSection)
+
 	// Now all the validation passes, we are safe to mutate memory instances (possibly imported ones).
 	if err = m.applyData(module.DataSection); err != nil {
 		return nil, err
 	}
-
-	m.applyElements(module.ElementSection)
 
 	m.Engine.DoneInstantiation()
 
